@@ -67,6 +67,12 @@ def loop_cases(ck, facts):
     units += ["(define c19-shadow 0)"] + ["(define c19-other%d %d)" % (i % 7, i) for i in range(900)]
     units += ["(c19-sample)", "(begin (#%gc-collect) (c19-sample))"]
     cases.append(("recycled-globals", units))
+    # a wide container (more children than the marker's local queue holds) that becomes garbage
+    nw = rng.randint(5000, 12000)
+    cases.append(("wide-dropped-%d" % nw,
+                  ["(begin (#%gc-collect) (c19-sample))", "(let ((ignore (set! w-root (w-fill (make-vector %d 0) 0 0 %d)))) 0)" % (nw, nw),
+                   "(begin (#%gc-collect) (c19-sample))", "(w-bad-vec 0 w-root 0 %d 0)" % nw, "(let ((ignore (set! w-root 0))) 0)",
+                   "(c19-acyclic 30000)", "(begin (#%gc-collect) (c19-sample))"]))
     return cases
 
 
@@ -78,7 +84,7 @@ def parse_sample(s):
 def run_loops(ck, facts, stats):
     cases = loop_cases(ck, facts)
     for jit in (True, False):
-        res = ck.eval_cases([u for _, u in cases], prelude=H.PRELUDE + LOOPS, env=({} if jit else {"STEEL_JIT": "false"}),
+        res = ck.eval_cases([u for _, u in cases], prelude=H.PRELUDE + H.WIDE_PRELUDE + LOOPS, env=({} if jit else {"STEEL_JIT": "false"}),
                             fresh=True, batch=1, timeout_per_batch=600)
         for (name, units), r in zip(cases, res):
             case = {"pattern": name, "jit": jit, "units": units}
@@ -90,6 +96,13 @@ def run_loops(ck, facts, stats):
                 continue
             samples = [parse_sample(o["ok"][-1]) for o in r if o["ok"] and o["ok"][-1].startswith("((I")]
             (b0, v0), (b1, v1) = samples[0], samples[-1]
+            if name.startswith("wide-dropped"):
+                nw = int(name.split("-")[-1])
+                bm, vm = samples[1]
+                if (bm[0] - bm[1]) != (b0[0] - b0[1]) + nw or (vm[0] - vm[1]) != (v0[0] - v0[1]) + 1 or "I0" not in [o["ok"][-1] for o in r if o.get("ok")]:
+                    ck.failing_input("wide container of %d boxes (jit=%s): %d box / %d vector slots flagged live after a full collection, expected %d / %d"
+                                     % (nw, jit, bm[0] - bm[1], vm[0] - vm[1], (b0[0] - b0[1]) + nw, (v0[0] - v0[1]) + 1), dict(case, sample=[bm, vm]), tag="wide")
+                    continue
             live_b, live_v = b0[0] - b0[1], v0[0] - v0[1]
             lim_b, lim_v = bound(facts, live_b + 64), bound(facts, live_v + 64)
             stats["max_slots"] = max(stats["max_slots"], max(s[0][0] for s in samples))
@@ -213,5 +226,5 @@ def replay(ck, path):
     if "steps" in case:
         c04.replay(ck, path)
         return
-    r = ck.eval_cases([case["units"]], prelude=H.PRELUDE + LOOPS, env=({} if case.get("jit", True) else {"STEEL_JIT": "false"}), fresh=True, batch=1)
+    r = ck.eval_cases([case["units"]], prelude=H.PRELUDE + H.WIDE_PRELUDE + LOOPS, env=({} if case.get("jit", True) else {"STEEL_JIT": "false"}), fresh=True, batch=1)
     print(json.dumps(r)[:3000])
